@@ -36,8 +36,17 @@ def generate(repo, emit, src, func_body):
                        ('src/List.c', 'List_Cmp', 'item0=List_Iter_Next(self,item0);item1=iter_next(obj,item1);}'),
                        ('src/Tuple.c', 'Tuple_Cmp', 'i++;item0=t->items[i];item1=iter_next(obj,item1);}')):
         b = norm(func_body(src(f), r'static\s+int\s+%s\s*\([^)]*\)\s*\{' % fn))
-        oks.append((loop + adv) in b and 'item1=iter_init(obj);' in b)
+        advs = [adv]
+        if fn == 'Tuple_Cmp':      # the walk over self is a modelled variant of its own (tuple_cmp_self_by_index below)
+            advs.append('item0=Tuple_Iter_Next(self,item0);item1=iter_next(obj,item1);}')
+        oks.append(any((loop + a) in b for a in advs) and 'item1=iter_init(obj);' in b)
     emit('seq_cmp_shape_ok', 'Definition seq_cmp_shape_ok : bool := true.   (* Array_Cmp, List_Cmp, Tuple_Cmp: parallel walk, length tie-break *)' if all(oks) else None)
+
+    # which walk Tuple_Cmp uses over `self` (always defined: the model must keep building)
+    b = norm(func_body(src('src/Tuple.c'), r'static\s+int\s+Tuple_Cmp\s*\([^)]*\)\s*\{'))
+    by_iter = 'Tuple_Iter_Next(self,item0)' in b or 'iter_next(self,item0)' in b
+    emit('tuple_cmp_self_by_index', 'Definition tuple_cmp_self_by_index : bool := %s.   (* source: %s *)'
+         % (('false', 'item0 = Tuple_Iter_Next(self, item0)') if by_iter else ('true', 'i++; item0 = t->items[i]')))
 
     b = norm(func_body(src('src/Tree.c'), r'static\s+int\s+Tree_Cmp\s*\([^)]*\)\s*\{'))
     tl = ('while(true){if(item0isTerminalanditem1isTerminal){return0;}if(item0isTerminal){return-1;}'
